@@ -149,7 +149,7 @@ def scenarios():
     add('S7 opcode granularity: wma_age_factor||wma_age_factor warmed-up, early rows', [_call(af, 'm', 40, '55H')], [_call(af, 'm', 50, '55H'), _call(af, 'f', 62, '60H')],
         bound=(1, 1), opcodes=True)
     add('S7 opcode granularity: schema_valid||schema_valid distinct keys, cache at 20', [lambda: fill_schema_cache(20)],
-        [_call(sv, 'json/athlete.json', D4), _call(sv, 'json/event.json', D4)], bound=(1, 2), opcodes=True)
+        [_call(sv, 'json/athlete.json', D4), _call(sv, 'json/event.json', D4)], bound=(2, 2), opcodes=True)
     add('S7 opcode granularity: schema_valid hit||evicting insert, cache at 20', [lambda: fill_schema_cache(19), _call(sv, 'json/athlete.json', D4)],
         [_call(sv, 'json/athlete.json', D4), _call(sv, 'json/event.json', D4)], bound=(1, 2), opcodes=True)
     add('S7 opcode granularity: valid_against_schema hit||evicting insert, cache at 20',
